@@ -249,7 +249,9 @@ fn observed_layouts<const N: usize>(ops: &[Operand]) -> usize {
     let mut seen = std::collections::BTreeSet::new();
     for o in ops {
         let b: CircularBuffer<N, u8> = build(o.rot, &o.contents, |c| c);
-        seen.insert((b.as_slices().0.len(), b.len()));
+        let base = &b as *const CircularBuffer<N, u8> as usize;
+        let front = b.front().map(|e| e as *const u8 as usize - base).unwrap_or(0);
+        seen.insert((front, b.len()));
     }
     seen.len()
 }
@@ -270,6 +272,7 @@ pub fn run_pairs<const N: usize, const M: usize>(o: &Opts, rep: &mut Report) {
             rep.transitions += 1;
             rep.evaluations += 1;
             rep.validated += 1;
+            rep.outcomes.insert(fnv_of(&(N, M, seq_eq(&l.contents, &r.contents), lex(&l.contents, &r.contents).map(|o| o as i8), l.contents.len().min(2), r.contents.len().min(2))));
             if !l.contents.is_empty() && !r.contents.is_empty() {
                 rep.nontrivial += 1;
             }
@@ -284,7 +287,6 @@ pub fn run_pairs<const N: usize, const M: usize>(o: &Opts, rep: &mut Report) {
         }
     }
     rep.action(&format!("pairs-{}x{}", N, M));
-    rep.outcomes.insert(fnv_of(&(N, M, ls.len(), rs.len())));
     if let (Some(l), Some(r)) = (ls.last(), rs.get(rs.len() / 2)) {
         let s = format!(
             "N={} M={} left(rot:contents)={} right={}: ==, !=, cross-type ==, partial_cmp, <, >=, 3 slice forms, 3 array forms, (u8: cmp, hash, ==) all agree with the slices: eq={} ord={:?}",
